@@ -250,6 +250,8 @@ func implC15(line string) string {
 		return withVM(func(vm *otto.Otto) string { return implGo(vm, f[1], f[2]) })
 	case "js":
 		return withVM(func(vm *otto.Otto) string { return implJS(vm, f[1], f[2]) })
+	case "call":
+		return withVM(func(vm *otto.Otto) string { return implCall(vm, f) })
 	}
 	return "bad-op"
 }
@@ -575,6 +577,131 @@ func genJS(c *h.Ctx, base []string, bd []float64) {
 	}
 }
 
+// ---------------------------------------------------------------- calls
+
+const probeSrc = `
+function hex(s){var r="";for(var i=0;i<s.length;i++){var h=s.charCodeAt(i).toString(16);r+=(h.length<2?"0":"")+h}return r}
+function obs(x){var t=typeof x; if(t==="string")return t+":"+hex(x); if(x===null)return "object:null"; if(t==="object"||t==="function")return "object:object"; return t+":"+String(x)}
+function probeFn(){var t; if(this===glob)t="global"; else if(this===obj)t="self"; else t="boxed:"+obs(this.valueOf()); var a=[]; for(var i=0;i<arguments.length;i++)a.push(obs(arguments[i])); return t+"|"+a.join(";")}
+var glob=this; var obj={probe:probeFn}; var probe=probeFn;
+`
+
+func resTok(v otto.Value, err error) string {
+	if err != nil {
+		return errTok(err)
+	}
+	s, _ := v.ToString()
+	return s
+}
+
+// implCall: call <kind> <m|p> <this> <args…>  ->  "<observation through the API>#<observation of the in-language call>"
+func implCall(vm *otto.Otto, f []string) string {
+	if _, err := vm.Run(probeSrc); err != nil {
+		return errTok(err)
+	}
+	kind, member, thisTok := f[1], f[2] == "m", f[3]
+	var args []interface{}
+	var names []string
+	for i, a := range f[4:] {
+		g := parseGo(a)
+		args = append(args, g)
+		n := fmt.Sprintf("a%d", i)
+		if err := vm.Set(n, g); err != nil {
+			return errTok(err)
+		}
+		names = append(names, n)
+	}
+	src := "probe"
+	if member {
+		src = "obj.probe"
+	}
+	argList := strings.Join(names, ",")
+	callList := argList
+	if callList != "" {
+		callList = "," + callList
+	}
+	var api, lang string
+	switch kind {
+	case "vcall":
+		fn, _ := vm.Get("probe")
+		var this otto.Value
+		if thisTok == "self" {
+			this, _ = vm.Get("obj")
+			lang = resTok(vm.Run("probe.call(obj" + callList + ")"))
+		} else {
+			g := parseGo(thisTok)
+			var err error
+			if this, err = vm.ToValue(g); err != nil {
+				return errTok(err)
+			}
+			vm.Set("T", g)
+			lang = resTok(vm.Run("probe.call(T" + callList + ")"))
+		}
+		api = resTok(fn.Call(this, args...))
+	case "ocall":
+		ov, _ := vm.Get("obj")
+		api = resTok(ov.Object().Call("probe", args...))
+		lang = resTok(vm.Run("obj.probe(" + argList + ")"))
+	case "gcall":
+		api = resTok(vm.Call(src, nil, args...))
+		lang = resTok(vm.Run(src + "(" + argList + ")"))
+	case "gcallT":
+		g := parseGo(thisTok)
+		api = resTok(vm.Call(src, g, args...))
+		vm.Set("T", g)
+		lang = resTok(vm.Run("(" + src + ").call(T" + callList + ")"))
+	default:
+		return "bad-op"
+	}
+	return api + "#" + lang
+}
+
+var callVals = []string{"nil", "b:1", "b:0", "int:5", "i8:-3", "i64:0", "u64:7", "u16:65535", "i64:9007199254740991", "uint:4294967296", "f64:4000000000000000", "f64:8000000000000000",
+	"f64:7ff8000000000001", "f64:fff0000000000000", "f32:4008000000000000", "s:6162", "s:", "s:7a", "N(int:4)", "N(s:71)", "P(int:6)", "Z(int)", "N(b:1)", "P(P(s:6b))"}
+
+func genCalls(c *h.Ctx) {
+	r := c.Rng
+	pick := func() string { return callVals[r.Intn(len(callVals))] }
+	argsOf := func() string {
+		n := r.Intn(4)
+		s := ""
+		for i := 0; i < n; i++ {
+			s += " " + pick()
+		}
+		return s
+	}
+	for _, t := range append([]string{"self"}, callVals...) {
+		c.Add("call vcall p "+t, "call:vcall")
+		if t != "self" && t != "nil" {
+			c.Add("call gcallT p "+t, "call:gcallT")
+			c.Add("call gcallT m "+t, "call:gcallT")
+		}
+	}
+	c.Add("call ocall m -", "call:ocall")
+	c.Add("call gcall m -", "call:gcall")
+	c.Add("call gcall p -", "call:gcall")
+	for i := 0; i < c.N(3000, 100000); i++ {
+		switch r.Intn(4) {
+		case 0:
+			t := pick()
+			if r.Chance(15) {
+				t = "self"
+			}
+			c.Add("call vcall p "+t+argsOf(), "call:vcall")
+		case 1:
+			c.Add("call ocall m -"+argsOf(), "call:ocall")
+		case 2:
+			c.Add("call gcall "+[]string{"m", "p"}[r.Intn(2)]+" -"+argsOf(), "call:gcall")
+		default:
+			t := pick()
+			if t == "nil" {
+				continue
+			}
+			c.Add("call gcallT "+[]string{"m", "p"}[r.Intn(2)]+" "+t+argsOf(), "call:gcallT")
+		}
+	}
+}
+
 // ---------------------------------------------------------------- generators
 
 type intKind struct {
@@ -775,4 +902,5 @@ func genC15(c *h.Ctx) {
 		addGo(c, goOps[r.Intn(len(goOps))], s, "shape:random")
 	}
 	genJS(c, base, bd)
+	genCalls(c)
 }
